@@ -42,7 +42,7 @@ def make_case(seed: int, tier: str, prop: str, opts=None) -> Dict[str, Any]:
     elif prop == "C10" and fam in (16, 17) and not force:
         # same-time loops with attached consumers: sub-steps are ordered by lazy stepping too
         sc = gen.gen_loop(seed, tier)
-    elif ((prop in ("C10", "C07", "C01") and fam == 18) or (prop == "C01" and fam == 17)) and not force:
+    elif ((prop in ("C10", "C07", "C01", "C05") and fam == 18) or (prop == "C01" and fam == 17)) and not force:
         # lazy stepping also bounds run-ahead in real-time mode (consumers slower than the clock);
         # max_advance is the same promise in real-time mode; so is causal input readiness (external
         # events are demands from the moment mosaik has processed them)
@@ -339,7 +339,7 @@ def run_case(case, prop) -> Dict[str, Any]:
         hd = digest(r.hist)
         digs.append(hd)
         viols, info = analyse_run(sc, rm, r)
-        if sc.get("rt") and prop == "C01":
+        if sc.get("rt") and prop in ("C01", "C05"):
             # real-time family: as in C17, runs in which a set_event request was already in the past when
             # mosaik processed it are outside the property's envelope and not judged
             from . import c17 as _c17
